@@ -190,7 +190,7 @@ Proof.
   set (names := apply_order order (o_names (b_cur b))).
   destruct (versions_of_names c S b names Hb) as (vs & ts & Hok & Hts).
   { intros n Hn. apply (in_o_names oeq). exact (in_apply_order _ _ _ Hn). }
-  eapply spec_bind with (P := fun x => x = (names, [PCur], true)).
+  eapply spec_bind with (P := fun x => x = (names, [PCur; PMerged], true)).
   { apply spec_list; [apply spec_ret; reflexivity|apply spec_fail]. }
   intros x ->. cbn beta iota.
   eapply spec_bind; [apply (merge_loop_none_fault_spec _ _ _ _ _ _ Hok)|].
